@@ -52,6 +52,15 @@ Record aprobe := mk_aprobe {
   a_err : N; a_ad : bool; a_marked : bool; a_aggr : bool
 }.
 
+(* one question through Resolver.Resolve below one authority (QNAME-minimised walk, session 5): question,
+   CD bit, the authority's reply to each minimised question (true = NXDOMAIN with the case's denial
+   records, false = NOERROR + SOA), RCODE of its reply to the full name; observed: error class, RCODE / AD of
+   the result, provenance published / aggressive-eligible, number of distinct questions the authority saw *)
+Record wprobe := mk_wprobe {
+  wq : name; wqtype : N; wcd : bool; wnx : list bool; wfrc : N;
+  wo_err : N; wo_rcode : N; wo_ad : bool; wo_marked : bool; wo_aggr : bool; wo_asked : N
+}.
+
 Inductive case :=
   (* dnsname.CanonicalCompare a b (sign), dnsname.CompareSuffix a b, dnsutil.NameInZone(a, b) *)
 | CaseCmp (a b : name) (cmp : N) (shared : N) (inzone : bool)
@@ -70,8 +79,14 @@ Inductive case :=
   (* signed (session 4): per record, whether its RRset carries an RRSIG made with the zone's key (false:
      unsigned, or signed by another zone's key — a child / sibling zone's record replayed into the answer) *)
 | CaseAuthNsec (z : rzone) (signer : name) (recs : list nsec) (signed : list bool) (kept : list N) (probes : list aprobe)
-| CaseAuthNsec3 (z : rzone) (signer : name) (recs : list nsec3) (kept : list N) (tab : list (name * N))
+  (* signed (session 5): as in CaseAuthNsec; judged = every record the zone's key signed is one of the zone's
+     genuine NSEC3 chain (decided by the generator) *)
+| CaseAuthNsec3 (z : rzone) (signer : name) (recs : list nsec3) (signed : list bool) (kept : list N) (tab : list (name * N))
                 (judged : bool) (probes : list aprobe)
+  (* Resolver.Resolve: the minimised walk below the zone's authority, the denial records as in CaseAuthNsec / CaseAuthNsec3 *)
+| CaseWalkNsec (z : rzone) (signer : name) (recs : list nsec) (signed : list bool) (probes : list wprobe)
+| CaseWalkNsec3 (z : rzone) (signer : name) (recs : list nsec3) (kept : list N) (tab : list (name * N))
+                (judged : bool) (probes : list wprobe)
   (* shared negative-cache state through Cache.ServeDNS: zone, maximum TTL, history of client
      exchanges (with what the downstream resolver answered) and clock advances *)
 | CaseShared (z : rzone) (maxttl : Z) (lim_index lim_cuts : N) (tab : list (name * N)) (ops : list shop)
@@ -217,6 +232,31 @@ Definition spec_aprobe (z : zone) (p : aprobe) : bool :=
   (negb (a_marked p) || ((a_err p =? 0) && negb (a_cd p) && (a_qclass p =? zone_class) && truth)) &&
   (negb (a_aggr p) || a_marked p).
 
+(* the walk: levels = the minimised names of the question with the authority's scripted replies *)
+Definition walk_eqb (w : walk_out) (p : wprobe) : bool :=
+  (err_code (w_err w) =? wo_err p) && (N.of_nat (w_asked w) =? wo_asked p) &&
+  (negb (wo_err p =? 0) ||
+   ((w_rcode w =? wo_rcode p) && Bool.eqb (w_ad w) (wo_ad p) && Bool.eqb (w_marked w) (wo_marked p) && Bool.eqb (w_aggr w) (wo_aggr p))).
+Definition check_wprobe (auth : wprobe -> rname -> N -> auth_out) (optout : bool) (sg : rname) (p : wprobe) : bool :=
+  let qe := canon (wq p) in
+  let names := walk_names (length sg) qe in
+  (length names =? length (wnx p))%nat && prefix_b sg qe && (length sg <? length qe)%nat &&
+  walk_eqb (min_walk (auth p) optout (combine names (wnx p)) qe (wfrc p) 0) p.
+
+(* what the walk's result claims must be true of the zone; a walk that ends before the full name ends with
+   a validated, aggressive-eligible NXDOMAIN for a minimised name that does not exist (RFC 8020) *)
+Definition spec_wprobe (z : zone) (p : wprobe) : bool :=
+  let qe := canon (wq p) in
+  if negb (prefix_b (z_apex z) qe) then true else
+  if negb (wo_err p =? 0) then negb (wo_ad p) && negb (wo_marked p) && negb (wo_aggr p) else
+  let truth := if wo_rcode p =? 3 then negb (exists_in_b z qe) else nodata_true_b z qe (wqtype p) in
+  let early := (wo_asked p <=? N.of_nat (length (wnx p))) in
+  (negb (wo_ad p || wo_marked p || wo_aggr p) || (negb (wcd p) && truth)) &&
+  (negb (wo_aggr p) || wo_marked p) &&
+  (negb early ||
+   ((wo_rcode p =? 3) && wo_marked p && wo_aggr p && negb (wcd p) && (0 <? wo_asked p) &&
+    negb (exists_in_b z (firstn (length (z_apex z) + N.to_nat (wo_asked p)) qe)))).
+
 Definition optN_eqb (a b : option N) : bool :=
   match a, b with None, None => true | Some x, Some y => x =? y | _, _ => false end.
 Definition optZ_eqb (a b : option Z) : bool :=
@@ -268,12 +308,24 @@ Definition check_case (c : case) : bool :=
       (length signed =? length recs)%nat &&
       forallb (fun p => auth_eqb (authority_nsec_signed (a_rcode p) (a_cd p) (canon (a_q p)) (a_qtype p) (a_qclass p) sg
                                                         (combine cs signed)) p) probes
-  | CaseAuthNsec3 z signer recs kept tab _ probes =>
+  | CaseWalkNsec z signer recs signed probes =>
+      let cs := canon_recs recs in
+      let sg := canon signer in
+      (length signed =? length recs)%nat &&
+      forallb (check_wprobe (fun p m rc => authority_nsec_signed rc (wcd p) m (wqtype p) zone_class sg (combine cs signed)) false sg) probes
+  | CaseWalkNsec3 z signer recs kept tab _ probes =>
       let sg := canon signer in
       list_eqb N.eqb (idx_where (fun r => prefix_b sg (canon (r_zone r))) 0 recs) kept &&
       let filtered := keep_idx 0 kept recs in
       let ctab := map (fun p => (canon (fst p), snd p)) tab in
-      forallb (fun p => auth_eqb (authority_nsec3 (a_rcode p) (a_cd p) (canon (a_q p)) (a_qtype p) (a_qclass p) sg filtered ctab) p) probes
+      forallb (check_wprobe (fun p m rc => authority_nsec3 rc (wcd p) m (wqtype p) zone_class sg filtered ctab) (has_optout3 sg recs) sg) probes
+  | CaseAuthNsec3 z signer recs signed kept tab _ probes =>
+      let sg := canon signer in
+      list_eqb N.eqb (idx_where (in_zone3 sg) 0 recs) kept &&
+      (length signed =? length recs)%nat &&
+      let ctab := map (fun p => (canon (fst p), snd p)) tab in
+      forallb (fun p => auth_eqb (authority_nsec3_signed (a_rcode p) (a_cd p) (canon (a_q p)) (a_qtype p) (a_qclass p) sg
+                                                         (combine recs signed) ctab) p) probes
   | CaseNsec3Work z signer recs kept prefilter tab _ _ failed probes =>
       check_nsec3 signer recs kept prefilter tab failed probes
   | CaseCut maxttl ops => check_cut maxttl 0 [] ops
@@ -343,7 +395,17 @@ Definition spec_case (c : case) : bool :=
       if negb (zone_wf_b z && rname_eqb (canon signer) (z_apex z) &&
                forallb (fun rs => negb (snd rs) || (genuine_b z (fst rs) && (c_class (fst rs) =? zone_class))) (combine cs signed)) then true else
       forallb (spec_aprobe z) probes
-  | CaseAuthNsec3 rz signer recs kept tab judged probes =>
+  | CaseWalkNsec rz signer recs signed probes =>
+      let z := canon_zone rz in
+      let cs := canon_recs recs in
+      if negb (zone_wf_b z && rname_eqb (canon signer) (z_apex z) &&
+               forallb (fun rs => negb (snd rs) || (genuine_b z (fst rs) && (c_class (fst rs) =? zone_class))) (combine cs signed)) then true else
+      forallb (spec_wprobe z) probes
+  | CaseWalkNsec3 rz signer recs kept tab judged probes =>
+      let z := canon_zone rz in
+      if negb (zone_wf_b z && rname_eqb (canon signer) (z_apex z) && judged) then true else
+      forallb (spec_wprobe z) probes
+  | CaseAuthNsec3 rz signer recs signed kept tab judged probes =>
       let z := canon_zone rz in
       if negb (zone_wf_b z && rname_eqb (canon signer) (z_apex z) && judged) then true else
       forallb (spec_aprobe z) probes
